@@ -36,6 +36,7 @@ INVARIANT BitsMatchStd
 INVARIANT DispatchTotal
 INVARIANT SiblingsAgree
 INVARIANT PrintStd
+INVARIANT PrintNone
 CHECK_DEADLOCK FALSE
 """
 INVS = ["WellFormed", "FieldsDefined", "CountersPrecede", "BitsMatchStd", "DispatchTotal", "SiblingsAgree"]
@@ -66,52 +67,68 @@ def run(tier, rep):
         raise MachineryFailure("Layout TLC failure: " + str(res.error) + "\n" + res.out[-1500:])
     rep.add_tlc(res)
     viol = re.findall(r'Invariant (\w+) is violated.*?id = "([^"]+)"', res.out, re.S)
-    std = {t[1]: (t[2], t[3]) for t in res.tuples("STD")}
+    std = {}
+    for t in res.tuples("STD"):
+        std.setdefault(t[1], []).append((t[3], t[4], t[5]))
     if len(std) != len(bundle["defs"]):
         raise MachineryFailure(f"Layout: {len(std)} identities evaluated, {len(bundle['defs'])} defined")
     for ident in bundle["defs"]:
         for inv in INVS:
-            rep.case(digest([ident, inv]), nontrivial=std[ident][0] >= 0)
+            rep.case(digest([ident, inv]), nontrivial=std[ident][0][1] >= 0)
     for inv, ident in viol:
         rep.reject("Layout:" + inv, {"engine": "layout", "ident": ident, "invariant": inv},
                    {"engine": "layout", "identity": ident, "invariant": inv, "definition": bundle["defs"].get(ident)})
     rep.notes["identities"] = len(std)
-    rep.notes["oracle_provenance"] = {k: sum(1 for v in std.values() if v[1] == k) for k in {v[1] for v in std.values()}}
+    provs = [v[0][2] for v in std.values()]
+    rep.notes["oracle_provenance"] = {k: provs.count(k) for k in set(provs)}
 
-    # (B) exact size on the real code
+    # (B) exact size on the real code, for every printed count vector
     rnd = rng("c10")
     corp = de.Corpus(rep, bundle)
-    for ident, (bits, prov) in sorted(std.items()):
-        if bits < 0:
-            continue
+
+    def bits_mask(width, k, rnd):
+        pos = rnd.sample(range(width), k)
+        return sum(1 << p for p in pos)
+
+    for ident, vecs in sorted(std.items()):
         ast = bundle["defs"][ident]
         dc = depth_counters(ast)
-        count = {name: (2 if d == 0 else 1) for name, d in dc.items() if d >= 0}
-        ov = {name: 1 for name, d in dc.items() if d == -1}          # optional groups present
-        mask = "random"
-        if bundle["table"][ident] == "msm":
-            mask = {"DF394": 0b111 << 40, "DF395": 0b11 << 10, "DF396": 0b101101}
-        if ident == "4076_201":
-            count = {}
-            ov = {"IDF035": 1, "IDF037_01": 0, "IDF038_01": 0, "IDF037_02": 0, "IDF038_02": 0}
-        pl, enc = gen_messages.build(ident, bundle, rnd, values="random", count=count or "typ", mask=mask, overrides=ov)
-        if pl is None:
-            continue
-        nbytes = (bits + 7) // 8
-        exact = (pl + bytes(nbytes))[:nbytes]
-        corp.add(exact, 1, lbl=False, ident=ident, kind="exact", bits=bits, encbits=enc.nbits, prov=prov)
-        corp.add(exact[:-1], 1, lbl=False, ident=ident, kind="short", bits=bits, encbits=enc.nbits, prov=prov)
+        for vec, bits, prov in vecs:
+            if bits < 0:
+                continue
+            count, ov, mask = "typ", {name: 1 for name, d in dc.items() if d == -1}, "random"
+            if bundle["table"][ident] == "msm":
+                nsat, nsig, ncell = vec
+                mask = {"DF394": bits_mask(64, nsat, rnd), "DF395": bits_mask(32, nsig, rnd), "DF396": bits_mask(nsat * nsig, ncell, rnd) if nsat * nsig else 0}
+            elif ident == "4076_201":
+                lyr, n, m = vec
+                ov = {"IDF035": lyr - 1}
+                for i in range(1, lyr + 1):
+                    ov[f"IDF037_{i:02d}"] = n - 1
+                    ov[f"IDF038_{i:02d}"] = m - 1
+            else:
+                count = {name: (vec[0] if d == 0 else vec[1]) for name, d in dc.items() if d >= 0} or "typ"
+            pl, enc = gen_messages.build(ident, bundle, rnd, values="random", count=count, mask=mask, overrides=ov)
+            if pl is None:
+                continue
+            nbytes = (bits + 7) // 8
+            if nbytes > 1023:
+                continue
+            exact = (pl + bytes(nbytes))[:nbytes]
+            meta = dict(ident=ident, bits=bits, encbits=enc.nbits, prov=prov, vec=str(vec))
+            corp.add(exact, 1, lbl=False, kind="exact", **meta)
+            corp.add(exact[:-1], 1, lbl=False, kind="short", **meta)
     dv = corp.judge()
     for r in corp.recs:
         v = dv[r["rid"]]
         m = corp.meta[r["rid"]]
-        rep.case(digest([m["ident"], m["kind"]]))
-        facts = {"engine": "layout+decode", "ident": m["ident"], "kind": m["kind"], "prov": m["prov"]}
+        rep.case(digest([m["ident"], m["kind"], m["vec"]]))
+        facts = {"engine": "layout+decode", "ident": m["ident"], "kind": m["kind"], "prov": m["prov"], "vec": m["vec"]}
         if v[0] != "accept":
             rep.reject(v[1], facts, de.replay_of(r, m, v))
         elif m["kind"] == "exact" and r["out"] != "msg":
             rep.reject("StdSizeNotAccepted", facts, {**de.replay_of(r, m, v), "std_bits": m["bits"], "definition_bits": m["encbits"]})
         elif m["kind"] == "short" and r["out"] == "msg":
             rep.reject("ShorterThanStdAccepted", facts, {**de.replay_of(r, m, v), "std_bits": m["bits"], "definition_bits": m["encbits"]})
-    rep.sample({"identity": "1004", "pinned_bits_at_N2": std.get("1004", ("?",))[0], "invariants": INVS})
-    rep.sample({"identity": "4076_063", "pinned_bits_at_N2": std.get("4076_063", ("?",))[0], "provenance": std.get("4076_063", ("", "?"))[1]})
+    rep.sample({"identity": "1004", "pinned_bits_per_vector": [(str(v[0]), v[1]) for v in std.get("1004", [])], "invariants": INVS})
+    rep.sample({"identity": "4076_201", "pinned_bits_per_vector_layers_degree_order": [(str(v[0]), v[1]) for v in std.get("4076_201", [])]})
